@@ -582,6 +582,7 @@ def run(fx, chk, tier):
     # ---------------- S6: bytes taken from the stream reach the decoded value without content-changing edits
     s6(fx, chk)
     s8(fx, chk, ms)
+    s10(fx, chk, ms)
     chk.rule("S9", "descriptor encoders: the length announced in a descriptor header equals the payload bytes written on that path and the type's static desc_size()")
     desc_sizes(fx, chk, "S9")
     # ---------------- S7: bit-packed words (instances owned by C05)
@@ -725,6 +726,53 @@ def _name_of(names, lid):
 def _scope_overlaps(order, pos, prev, cur):
     """conservative: a shadowing `let` counts only when it comes later in the same function body (positions are pre-order)"""
     return cur[1] > prev[1]
+
+
+INT_BITS = {"u8": 8, "i8": 8, "u16": 16, "i16": 16, "u32": 32, "i32": 32, "u64": 64, "i64": 64, "usize": 64, "isize": 64, "u128": 128, "i128": 128}
+
+
+def s10(fx, chk, ms):
+    """widening on decode follows the field's signedness: a wire integer narrower than the struct field it is stored in must
+    be read unsigned for an unsigned field (zero extension) and signed for a signed field (sign extension).  The encoders
+    truncate with `as`, so the other extension decodes every value with the wire's top bit set to something the encoder
+    did not write (decode(encode(x)) != x for those x)."""
+    chk.rule("S10", "a wire integer narrower than its struct field is read with the field's signedness (zero extension into unsigned fields, sign extension into signed ones)")
+    # field types by (struct short name, field)
+    ftypes = {}
+    for aid, adt in fx.adts.items():
+        if adt.get("kind") != "Struct":
+            continue
+        for fld in adt["variants"][0]["fields"]:
+            ftypes.setdefault(fld["name"], {})[short(aid)] = fld.get("ty_s") or ""
+    n = 0
+    for ty, m in sorted(ms.items()):
+        if m.Lr is None or m.roles is None:
+            continue
+        file_ = (m.fr.get("span") or {}).get("file")
+        for x in LY.walk(m.Lr):
+            if x["n"] != "atom" or x.get("dir", "r") != "r" or x.get("w") is None or "id" not in x:
+                continue
+            role = m.roles.role_of(x["id"])
+            if not role or role in ("reserved", "count", "?") or not re.match(r"^[A-Za-z_]\w*$", role):
+                continue
+            cands = ftypes.get(role, {})
+            # the box's own field, else a field of that name in a struct declared in the same file (entry types)
+            fty = cands.get(m.s)
+            if fty is None:
+                same = [t for a_, t in cands.items() if (fx.adts.get(next((k for k in fx.adts if short(k) == a_), ""), {}).get("span") or {}).get("file") == file_]
+                fty = same[0] if len(set(same)) == 1 else None
+            if fty not in INT_BITS:
+                continue
+            n += 1
+            wire_bits = 8 * x["w"]
+            if INT_BITS[fty] <= wire_bits:
+                continue
+            fsigned = fty.startswith("i")
+            key = "%s.%s|w%d" % (m.s, role, x["w"])
+            chk.require(bool(x.get("signed")) == fsigned, "S10", key, "%d-bit wire value read %s into %s" % (wire_bits, "signed" if x.get("signed") else "unsigned", fty),
+                        "%s.%s is %s but its %d-bit wire form is read as a %s integer: values with the wire's top bit set are %s-extended and no longer equal what was encoded" % (
+                            m.s, role, fty, wire_bits, "signed" if x.get("signed") else "unsigned", "sign" if x.get("signed") else "zero"), site_of(m.fr, x.get("line")))
+    chk.floor("S10", "integer fields read from the wire", n, 100)
 
 
 def desc_sizes(fx, chk, rule, floor=4):
